@@ -373,6 +373,8 @@ func (r *runner) setup(c *centrifuge.Client) {
 				cb(centrifuge.RefreshReply{}, handlerDisc)
 			case "expired":
 				cb(centrifuge.RefreshReply{Expired: true}, nil)
+			case "past":
+				cb(centrifuge.RefreshReply{ExpireAt: time.Now().Unix() - 10}, nil)
 			default:
 				cb(centrifuge.RefreshReply{ExpireAt: far()}, nil)
 			}
@@ -385,6 +387,8 @@ func (r *runner) setup(c *centrifuge.Client) {
 				cb(centrifuge.SubRefreshReply{}, handlerErr)
 			case "disc":
 				cb(centrifuge.SubRefreshReply{}, handlerDisc)
+			case "past":
+				cb(centrifuge.SubRefreshReply{ExpireAt: time.Now().Unix() - 10}, nil)
 			case "tagschange":
 				cb(centrifuge.SubRefreshReply{ExpireAt: far(), ServerTagsFilter: filterB}, nil)
 			default:
@@ -564,17 +568,8 @@ func sameFrames(a, b []frame) bool {
 	return true
 }
 
-// normalise puts a state-invalidated unsubscribe push after the sub_refresh reply it is adjacent to.
-func normalise(a []frame) []frame {
-	out := append([]frame(nil), a...)
-	for i := 0; i+1 < len(out); i++ {
-		if out[i].T == "unsub" && out[i].Code == 2502 && out[i+1].T == "reply" && out[i+1].K == "sub_refresh" {
-			out[i], out[i+1] = out[i+1], out[i]
-			i++
-		}
-	}
-	return out
-}
+// normalise: the frames as they are (the order reply, then state-invalidated unsubscribe push is the model's).
+func normalise(a []frame) []frame { return a }
 
 func sameBag(a, b []frame) bool {
 	if len(a) != len(b) {
